@@ -322,15 +322,35 @@ func (w *qWorld) applyVoids() {
 			if mc != nil && len(mc.dels) > 0 && lastDel(mc).Step >= c.VoidStep {
 				continue // handed to a consumer while the empty/delete was running: it escaped
 			}
+			if mc != nil && len(mc.dels) > 0 && lastDel(mc).Answer != "" && lastDel(mc).AnsStep >= c.VoidStep {
+				continue // being requeued/finished while the empty/delete ran: in nobody's queue at that moment
+			}
 			reached := mc != nil && len(mc.dels) > 0
-			if !reached && !p.TopicPausedAtSend && !t.pausedBetween(p.SendStep, c.VoidStep) {
+			if !reached && !p.TopicPausedAtSend && !t.pausedBetween(p.SendStep, c.VoidStep) && c.CreatedStep < p.SendStep && c.lastDeleteStep < p.SendStep {
 				for _, n := range p.ChansAtPub {
 					if n == c.Name {
 						reached = true
 					}
 				}
 			}
-			if reached {
+			// A queued message can be snatched by a delivery pump while the
+			// empty runs (the empty zeroes the consumers' in-flight counts
+			// first), and the frame may then sit unseen in an output buffer.
+			// The discard is therefore only certain if no consumer could become
+			// ready, or if the message was certainly in flight at that moment.
+			certain := true
+			for _, co := range w.cons {
+				if co.ck == c.Key && co.Subscribed && (!co.Dead || co.DeadStep >= c.VoidStep) && (co.Rdy > 0 || co.rdyStepMax > 0) && !c.Paused {
+					certain = false
+				}
+			}
+			if !certain && mc != nil && len(mc.dels) > 0 {
+				d := lastDel(mc)
+				if dl, ok := w.deadlineLower(d); ok && d.Answer == "" && !d.Voided && !d.maybeAnswered && time.Now().Before(dl) {
+					certain = true
+				}
+			}
+			if reached && !c.Unordered && certain {
 				c.discarded[p.Key] = w.epoch
 				c.discardedAt[p.Key] = time.Now()
 			}
@@ -557,6 +577,16 @@ func (w *qWorld) onMessage(co *consumer, f Frame) {
 		}
 		rc.Probe("rdy_checked")
 	}
+	if _, was := cm.discarded[p.Key]; was && !p.AckAt.IsZero() && p.AckSeq < cm.VoidSeq && step > cm.discarded[p.Key] && !rc.Failed() {
+		// Within the flush allowance: either the frame left for the output
+		// buffer before the empty/delete (the message is gone) or the message
+		// was handed over while the empty ran (it escaped and is in flight).
+		// Both are legitimate; nothing more is claimed about this message.
+		d.maybeAnswered = true
+		delete(cm.discarded, p.Key)
+		cm.Tainted = true
+		rc.Probe("buffered_frame_of_discarded_message")
+	}
 	mc.dels = append(mc.dels, d)
 	co.Dels = append(co.Dels, d)
 }
@@ -762,21 +792,6 @@ func (w *qWorld) resolveUncertain() {
 		return
 	}
 	w.rc.Probe("uncertain_resolved")
-	for name, t := range w.topics {
-		if t.ExistUnknown {
-			t.ExistUnknown = false
-			ex := doc.topic(name) != nil
-			if ex && !t.Exists {
-				t.Exists = true
-				t.CreatedStep = w.epoch
-			}
-			t.Exists = ex
-			t.Tainted = true // counters of this incarnation are not known exactly
-			if st := doc.topic(name); st != nil {
-				t.Paused = st.Paused
-			}
-		}
-	}
 	for _, k := range w.sortedChanKeys() {
 		c := w.chans[k]
 		if !c.Uncertain {
@@ -790,11 +805,38 @@ func (w *qWorld) resolveUncertain() {
 			c.msgs = map[string]*msgChan{}
 			c.Fins, c.Reqs, c.Discarded = 0, 0, 0
 		}
+		if sc == nil && c.Exists {
+			c.lastDeleteStep = w.epoch
+			c.Epoch++
+			c.VoidSeq = w.rc.Net.NextSeq()
+			c.VoidStep = w.epoch
+		}
 		c.Exists = sc != nil
 		c.Tainted = true
+		if w.liveConsumersOf(c.Key) == 0 {
+			c.hadConsumer = false // whichever incarnation this is, nobody has left it yet
+		}
+		if sc == nil && w.topic(c.Topic).Ephemeral {
+			w.topic(c.Topic).ExistUnknown = true // settled from /stats just below
+		}
 		if sc != nil {
 			c.Paused = sc.Paused
 			w.topic(c.Topic).Exists = true
+		}
+	}
+	for name, t := range w.topics {
+		if t.ExistUnknown {
+			t.ExistUnknown = false
+			ex := doc.topic(name) != nil
+			if ex && !t.Exists {
+				t.Exists = true
+				t.CreatedStep = w.epoch
+			}
+			t.Exists = ex
+			t.Tainted = true // counters of this incarnation are not known exactly
+			if st := doc.topic(name); st != nil {
+				t.Paused = st.Paused
+			}
 		}
 	}
 }
@@ -920,12 +962,12 @@ func (w *qWorld) owed() []*msgChan {
 			continue
 		}
 		t := w.topic(p.Topic)
-		if t.VoidSeq > p.SendSeq || (t.Ephemeral && smallMem) {
-			continue
+		if t.VoidSeq > p.SendSeq || (t.VoidStep >= p.SendStep && t.VoidSeq != 0) || (t.Ephemeral && smallMem) {
+			continue // emptied/deleted after (or concurrently with) the publish
 		}
 		for _, name := range p.ChansAtPub {
 			c := w.chans[p.Topic+"/"+name]
-			if c == nil || !c.Exists || c.Uncertain || c.Sampled || c.VoidSeq > p.SendSeq || (c.Ephemeral && smallMem) {
+			if c == nil || !c.Exists || c.Uncertain || c.Sampled || c.VoidSeq > p.SendSeq || (c.VoidStep >= p.SendStep && c.VoidSeq != 0) || (c.Ephemeral && smallMem) {
 				continue
 			}
 			if c.Ephemeral || t.Ephemeral {
@@ -956,6 +998,7 @@ func (w *qWorld) drain() {
 	rc := w.rc
 	rc.Logf("---- drain")
 	w.settle()
+	w.afterSettle()
 	if w.n == nil {
 		return
 	}
